@@ -19,7 +19,12 @@ def mc_stage(tier):
     mod = os.path.join(core.SPEC, 'MC_Honey.tla')
     cfg = os.path.join(core.SPEC, 'MC_Honey.cfg' if tier == 'quick' else 'MC_Honey_thorough.cfg')
     r = core.tlc_must_pass(mod, cfg, 'Honey', timeout=1800)
-    return {'cfg': os.path.basename(cfg), 'states': r.distinct, 'transitions': r.generated, 'wall_s': round(r.wall, 1)}
+    mod2 = os.path.join(core.SPEC, 'MC_HoneyWalk.tla')
+    cfg2 = os.path.join(core.SPEC, 'MC_HoneyWalk.cfg' if tier == 'quick' else 'MC_HoneyWalk_thorough.cfg')
+    r2 = core.tlc_must_pass(mod2, cfg2, 'HoneyWalk', timeout=3000)
+    return {'cfg': os.path.basename(cfg), 'states': r.distinct + r2.distinct, 'transitions': r.generated + r2.generated,
+            'wall_s': round(r.wall + r2.wall, 1),
+            'HoneyWalk': {'cfg': os.path.basename(cfg2), 'states': r2.distinct, 'transitions': r2.generated}}
 
 
 def split_mass(rng, total, kmax):
@@ -53,7 +58,10 @@ def make_ruleset(rng, path):
         terminals[t] = items
     terminals['C3'] = [('LLL', 0.5), ('ULL', 0.5)]
     lists['C3'] = [[8, 2]]
-    structs = rng.sample(['A2', 'D1', 'A2D1', 'O1A2', 'D1O1', 'A3', 'A3D1', 'M'], rng.randint(2, 4))
+    structs = rng.sample(['A2', 'D1', 'A2D1', 'O1A2', 'D1O1', 'A3', 'A3D1', 'M'], rng.randint(1, 3))
+    # always one structure in which a type occurs twice (slots share a list but have their own draw)
+    structs.append(rng.choice(['D1O1D1', 'A2D1A2', 'D1D1', 'O1D1O1', 'A2A2', 'A3D1A3']))
+    rng.shuffle(structs)
     while True:
         ws = sorted((rng.randint(1, D) for _ in structs), reverse=True)
         if sum(ws) == D and len(set(ws)) == len(ws):
@@ -139,12 +147,18 @@ def main(pid, tier, seed):
             if struct != 'M':
                 for p, ls in enumerate(poslists):
                     sweeps += [('pos', p, bp) for bp in breakpoints(ls)]
+            if struct != 'M':
+                # joint sweeps: every position at a breakpoint of its own list at once
+                for _ in range(12):
+                    sweeps.append(('joint', None, [rng.choice(breakpoints(ls)) for ls in poslists]))
             for what, p, bp in sweeps:
                 if what == 'base' and si != 0:
                     continue        # the structure list is swept once
                 draws_t = [t_struct] + [ls[0][0] * ls[0][1] * R // (2 * D) for ls in poslists]
                 if what == 'base':
                     draws_t[0] = bp
+                elif what == 'joint':
+                    draws_t[1:] = bp
                 else:
                     draws_t[p + 1] = bp
                 sc = Script([t / R for t in draws_t])
